@@ -209,7 +209,7 @@ func runC20(c *Ctx) {
 // function returns a JsonError built from the error's text and the ranged file's Name.
 func decodeErrorWrapped(c *Ctx, rule string) {
 	p := c.P
-	ep := p.LangFunc("EvalProgram")
+	ep := p.DriverFunc()
 	if ep == nil {
 		c.undecided(rule, "EvalProgram", "", "anchor not found")
 		return
@@ -229,7 +229,8 @@ func decodeErrorWrapped(c *Ctx, rule string) {
 		if !FactsOf(ep).At(r.Block()).KnownNonNil(dec) {
 			continue
 		}
-		e := p.Render(effectiveResults(r)[1])
+		res := effectiveResults(r)
+		e := p.Render(res[len(res)-1])
 		found = true
 		want := "lang.JsonError{Message: " + p.Render(dec) + ".Error(), FileName: files[i@files].Name}"
 		c.check(e == want, rule, "decode-error-is-JsonError", p.InstrPos(r), "JsonError{err.Error(), file.Name}", "a decoder failure is returned as "+e+"; expected a JsonError carrying the decoder's message and the name of the file being read")
